@@ -546,6 +546,82 @@ func c11Enumerate(full bool, visit func(idx int64, cs c11Case, run func() string
 	}
 }
 
+// c11Large: messages close to the frame limit (network.MessageSizeMax): many link-metadata entries, many small
+// blocks, one big block, one big extension payload, and two of them back to back on one stream. Each is
+// well-formed iff its encoding fits the frame limit (otherwise it is skipped, and counted as such).
+func c11Large(visit func(name string, run func() (string, bool)) bool) {
+	pfx := cid.Prefix{Version: 1, Codec: cid.Raw, MhType: mh.SHA2_256, MhLength: -1}
+	mkCid := func(i int) cid.Cid {
+		c, _ := pfx.Sum([]byte(fmt.Sprintf("c11-large-%d", i)))
+		return c
+	}
+	manyLinks := func(n int) gsmsg.GraphSyncMessage {
+		md := make([]gsmsg.GraphSyncLinkMetadatum, n)
+		for i := range md {
+			md[i] = gsmsg.GraphSyncLinkMetadatum{Link: mkCid(i), Action: c11Actions[i%len(c11Actions)]}
+		}
+		r := gsmsg.NewResponse(harness.MkID(1), graphsync.PartialResponse, md)
+		return gsmsg.NewMessage(nil, map[graphsync.RequestID]gsmsg.GraphSyncResponse{r.RequestID(): r}, nil)
+	}
+	manyBlocks := func(n, size int) gsmsg.GraphSyncMessage {
+		bl := map[cid.Cid]blocks.Block{}
+		for i := 0; i < n; i++ {
+			data := bytes.Repeat([]byte{byte(i), byte(i >> 8), byte(i >> 16)}, size/3+1)[:size]
+			c, _ := pfx.Sum(data)
+			b, _ := blocks.NewBlockWithCid(data, c)
+			bl[c] = b
+		}
+		return gsmsg.NewMessage(nil, nil, bl)
+	}
+	bigExt := func(size int) gsmsg.GraphSyncMessage {
+		r := gsmsg.NewRequest(harness.MkID(2), mkCid(0), c11Selectors()[1].Data, 1, graphsync.ExtensionData{Name: "x/big", Data: basicnode.NewBytes(make([]byte, size))})
+		return gsmsg.NewMessage(map[graphsync.RequestID]gsmsg.GraphSyncRequest{r.ID(): r}, nil, nil)
+	}
+	type lg struct {
+		name string
+		mk   func() []gsmsg.GraphSyncMessage
+	}
+	var cases []lg
+	one := func(name string, f func() gsmsg.GraphSyncMessage) {
+		cases = append(cases, lg{name, func() []gsmsg.GraphSyncMessage { return []gsmsg.GraphSyncMessage{f()} }})
+	}
+	for _, n := range []int{1000, 30000, 60000, 80000, 90000, 95000} {
+		n := n
+		one(fmt.Sprintf("response with %d link-metadata entries", n), func() gsmsg.GraphSyncMessage { return manyLinks(n) })
+	}
+	for _, n := range []int{1000, 20000, 30000, 36000, 38000, 39000} {
+		n := n
+		one(fmt.Sprintf("%d blocks of 100 bytes", n), func() gsmsg.GraphSyncMessage { return manyBlocks(n, 100) })
+	}
+	for _, n := range []int{100000, 200000, 300000} {
+		n := n
+		one(fmt.Sprintf("%d blocks of 3 bytes", n), func() gsmsg.GraphSyncMessage { return manyBlocks(n, 3) })
+	}
+	for _, sz := range []int{1 << 20, 3 << 20, 4<<20 - 4096, 4<<20 - 256, 4<<20 - 128, 4<<20 - 80, 4<<20 - 64} {
+		sz := sz
+		one(fmt.Sprintf("one block of %d bytes", sz), func() gsmsg.GraphSyncMessage { return manyBlocks(1, sz) })
+		one(fmt.Sprintf("one extension payload of %d bytes", sz), func() gsmsg.GraphSyncMessage { return bigExt(sz) })
+	}
+	cases = append(cases, lg{"stream: 80000 link entries, 36000 small blocks, a 3 MiB block", func() []gsmsg.GraphSyncMessage {
+		return []gsmsg.GraphSyncMessage{manyLinks(80000), manyBlocks(36000, 100), manyBlocks(1, 3<<20)}
+	}})
+	for _, cs := range cases {
+		cs := cs
+		if !visit(cs.name, func() (string, bool) {
+			ms := cs.mk()
+			for _, m := range ms {
+				var buf bytes.Buffer
+				if err := harness.MH.ToNet(peer.ID("x"), m, &buf); err != nil || buf.Len() > p2pnet.MessageSizeMax {
+					return "", false // does not fit a frame: not a well-formed message
+				}
+			}
+			return c11RoundTrip(ms), true
+		}) {
+			return
+		}
+	}
+}
+
 // extension payload codecs carried through a message
 func c11ExtCodecs() (sig, what string, n int64) {
 	cids := c11Cids()
@@ -665,6 +741,25 @@ func runC11(c *core.Ctx) {
 			c.Violate(sig, what, c11Case{Kind: "ext-codec"})
 		}
 	}
+	li := int64(0)
+	c11Large(func(name string, run func() (string, bool)) bool {
+		li++
+		if !c.Mine(li) {
+			return true
+		}
+		d, fits := run()
+		if !fits {
+			c.Count("large_messages_beyond_the_frame_limit_skipped", 1)
+			return true
+		}
+		c.Res.Evaluations++
+		c.Class("large")
+		c.Count("messages_large", 1)
+		if d != "" {
+			c.Violate(c11Sig("large", d), fmt.Sprintf("%s: %s", name, d), c11Case{Kind: "large", Parts: []string{name}})
+		}
+		return true
+	})
 	c11Enumerate(c.Thorough(), func(idx int64, cs c11Case, run func() string) bool {
 		if !c.Mine(idx) {
 			return true
@@ -705,6 +800,19 @@ func init() {
 				return sig + ": " + what
 			}
 			res := "case not found"
+			if cs.Kind == "large" {
+				c11Large(func(name string, run func() (string, bool)) bool {
+					if len(cs.Parts) == 1 && name == cs.Parts[0] {
+						res, _ = run()
+						if res == "" {
+							res = "ok"
+						}
+						return false
+					}
+					return true
+				})
+				return res
+			}
 			for _, full := range []bool{false, true} {
 				c11Enumerate(full, func(idx int64, x c11Case, run func() string) bool {
 					if idx == cs.Index && x.Kind == cs.Kind && strings.Join(x.Parts, "|") == strings.Join(cs.Parts, "|") {
